@@ -138,13 +138,25 @@ class BuildFailure(Exception):
         self.exc = exc
 
 
+class VIterEngine(iteration.Engine):
+    """iteration.Engine with the documented hook for custom unary operations implemented for the
+    extension operations of vmon/ext.py (a user's engine subclass would do the same)."""
+
+    def apply_custom_unary_operation(self, operation, target):
+        if hasattr(operation, "vmon_apply"):
+            return iteration.RowSequence(operation.vmon_apply(list(self.execute(target))))
+        return super().apply_custom_unary_operation(operation, target)
+
+
 def make_engines(kinds=("sql", "it", "it2")):
     out = {}
     for k in kinds:
         if k.startswith("sql"):
             out[k] = sql.Engine(name=k)
+            out[k].functions["vm_only_sql"] = lambda x: x * 2 + 1
         else:
-            out[k] = iteration.Engine(name=k)
+            out[k] = VIterEngine(name=k)
+            out[k].functions["vm_only_it"] = lambda x: x * 2 + 1
     return out
 
 
@@ -312,6 +324,14 @@ class Builder:
             return t[prog[2] : prog[3]]
         if op == "mat":
             return t.materialized(name=prog[2])
+        if op == "cap":
+            from .ext import RowCap
+
+            return RowCap(prog[2]).apply(t)
+        if op == "rev":
+            from .ext import Reverse
+
+            return Reverse().apply(t)
         if op == "mark":
             from .ext import Tagged
 
